@@ -40,6 +40,7 @@ reg("L8r", flow.rule_L8r, 30)
 reg("L8a", flow.rule_L8a, 8)
 reg("L8c", flow.rule_L8c, 10)
 reg("L9", flow.rule_L9, 1)
+reg("L6e", flow.rule_L6e, 3)
 
 for _f, _n in (("N1", 10), ("N2", 10), ("N3", 10), ("N4", 10), ("N5", 8), ("N6", 6), ("N7", 6), ("N8", 8), ("N9", 20), ("N10", 2), ("N11", 2), ("N12", 1), ("X1", 10)):
     reg(_f, getattr(names, "rule_" + _f), _n)
@@ -72,7 +73,7 @@ def _p(rules, explanation, extra_assumptions=()):
 NOT = " NOT decided (runtime remainder): "
 
 PROPS = {
-    "C01": _p(["L1a", "L2", "L8a", "S1", "S3", "S4p", "D1a", "D2", "D3a", "D4", "L7", "P7", "N1", "N9", "N5", "S5", "R1", "I6", "L9", "P1", "P2", "B1d"],
+    "C01": _p(["L1a", "L2", "L8a", "S1", "S3", "S4p", "D1a", "D2", "D3a", "D4", "L7", "P7", "N1", "N9", "N5", "S5", "R1", "I6", "L9", "P1", "P2", "B1d", "P3"],
               "Structural necessary conditions of byte-exact AKAI export: evaluated construct layouts of partition/volume/file-entry/sample-header "
               "(offset, width, sign, endianness, data-window terms offset = header_end + 2*play_start, size = 2*(play_end - play_start)) equal the reviewed "
               "reference (L1a, L2); both sample type bytes reach the sample parser (L8a); chain walk shape (S1), address maps (S3), multi-sector split "
@@ -85,7 +86,7 @@ PROPS = {
               "byte equality of outputs; that the decoded SAT equals the intended allocation for every table; directory reserved-run handling beyond D1/D3. "
               "Known finding G7 (head-not-lowest chains are truncated) is reported as KNOWN-FINDING.",
               ["the reviewed layout reference (sa/reference/layouts.json) matches the AKAI S1000/S3000 format as documented (140-byte sample header, 150-byte keygroup)"]),
-    "C02": _p(["L1r", "L2", "L4", "L5", "L8r", "D1r", "D2", "D3r", "D4", "S3", "S7", "T1", "O1", "I5", "N1", "N9", "S4p", "S5", "I6"],
+    "C02": _p(["L1r", "L2", "L4", "L5", "L8r", "D1r", "D2", "D3r", "D4", "S3", "S7", "T1", "O1", "I5", "N1", "N9", "S4p", "S5", "I6", "N5"],
               "Structural necessary conditions of byte-exact Roland export: record addressing terms ENTRY_SIZE*index + AREA_OFFSET per kind/area with MAX_NUM bounds "
               "(L4), contiguous area geometry (L5), struct sizes = the repository's constants (L2), full evaluated layout of the image struct against the reviewed "
               "reference (L1r); loop mode -> window [2*start, 2*(END-start+1)) with END per mode and StreamReversed for exactly the two reverse modes, handler map total "
@@ -93,7 +94,7 @@ PROPS = {
               "malformed tables (T1, D1, D3, D2); per-performance collection loops and orphan detection over DISTINCT referenced performances (O1); routines at every "
               "level (N1); shared construct objects keep no per-parse state (I6). The orphan scan reads all MAX_NUM_PERFORMANCE directory slots (O1 extent)."
               "" + NOT + "byte equality; np.isin orphan mask semantics; FAT version handling of directory links."),
-    "C03": _p(["L8c", "T1", "P5", "C2", "Q4", "Q2", "Q1", "R1", "P8", "Q5"],
+    "C03": _p(["L8c", "T1", "P5", "C2", "Q4", "Q2", "Q1", "R1", "P8", "Q5", "N5"],
               "Decides the CDDA window clauses as E-AFF terms: MSF polynomial 4500m+75s+f, 2352-byte sectors, per-track offset = 2352*first_index(cur) and "
               "offset+size = 2352*first_index(next) (tiling identity: no gap, no overlap), last track to end_of_file, first INDEX used, walk advances with each emitted "
               "track (L8c, T1-ITERATOR); all-audio cue -> CDDA (C2, Q4); whole-frame truncation with the stream's own frame size (P5); cue field extraction (Q1, Q2); every source stream is rewound before the "
@@ -101,13 +102,13 @@ PROPS = {
               "hierarchy is a pass-through - one WAV per track, no L/R merging (P8). The cue text handed to the parser is the whole file (Q5)."
               "" + NOT +
               "tracks without INDEX lines; equality of bytes."),
-    "C04": _p(["L1w", "L2", "L7", "P5", "P6", "L8c"],
+    "C04": _p(["L1w", "L2", "L7", "P5", "P6", "L8c", "P7"],
               "Decides the RIFF structure clauses: evaluated layouts of RiffStruct / chunk / fmt (16 bytes) / smpl (36 + 24*loops) / loop (24) incl. Prefixed(Int32ul) nesting, "
               "little-endian chunk ids, Rebuild terms byte_rate = rate*channels*bits//8 and block_align = channels*bits//8, loop count = len(loops) (L1w, L2); chunk append order "
               "fmt,[smpl],data; fmt values; destination encoding; output opened with builtin open(path,'wb') (L7); every data block trimmed to whole frames of that stream (P5); the frame size used for that trim is the one of the "
               "encoding the stream is constructed with (L8c: CDDA tracks are 2 x 2 bytes) and interleaving pads all channels to one length before emitting frames (P6)." + NOT +
               "that construct's Prefixed computes sizes correctly; smpl field value ranges; samples whose export raises."),
-    "C05": _p(["P1", "P8", "P2", "P3", "P6", "P5", "P7", "N3", "N7", "R1", "N5", "S9", "I1"],
+    "C05": _p(["P1", "P8", "P2", "P3", "P6", "P5", "P7", "N3", "N7", "R1", "N5", "S9", "I1", "B1d", "L6e"],
               "Decides the pairing clauses: marks and index keyed by export name only, every iteration path emits exactly one sample or skips a consumed one, partner marked iff "
               "combined (P1); by case analysis over the regex group (L|R) the first combine_stereo argument is always the L sample, partner name = stem+separator+other suffix, "
               "merged name = stem (P2); left streams then right streams, channel count = number of streams (P3); frame-major interleave / de-interleave idioms and end-padding (P6); "
@@ -134,12 +135,12 @@ PROPS = {
               "reshape/flip idiom (S7); address maps as affine terms on every path (S3); split accounting, first/middle/last piece indices, zero-size guard, length check (S4); re-sync "
               "before every underlying read (S6); container windows: MDX offset = sizeof(header), size = eof - offset; MDF geometry (L2). A chained file view is always built over get_path's list, in chain order (D4)."
               "" + NOT + "equality with a reference model over operation histories; empty views; short reads of the underlying file."),
-    "C09": _p(["C1", "C2", "S8", "S3", "S4p", "L1c", "L2", "Q3", "Q2", "Q1"],
+    "C09": _p(["C1", "C2", "S8", "S3", "S4p", "L1c", "L2", "Q3", "Q2", "Q1", "S5"],
               "Decides: detection cascade order and the stream each probe/parser receives (C1); data-track existential and CDDA branch (C2); every probe restores the borrowed stream's "
               "position on every normal exit (S8); MDF geometry 2352 = 16+2048+288, size = (n // 2352) * 2048 (S3); MDX window offset = sizeof(header), size = eof - offset; container "
               "header layouts (L1c, L2); ASCII probe and fallbacks (Q3); the 2048-byte user-data view reads through the same multi-sector split as every "
               "other sector stream (S4p); the FILE line of a cue sheet is recognised whatever the quoted name contains (Q1)." + NOT + "equality of ls/export across the five encodings."),
-    "C10": _p(["N6", "N1", "N2", "N4", "N7", "N8", "X1", "T1", "N10", "N11", "I1"],
+    "C10": _p(["N6", "N1", "N2", "N4", "N7", "N8", "X1", "T1", "N10", "N11", "I1", "N12"],
               "Decides: listing shows safe_name of every child and lookup compares the same attribute through the same normaliser (N6); safe names exist and are de-duplicated at every "
               "level (N1, N2, N7) and are blank-stripped (N4); every lookup failure inside parse_path is converted to ErrorInvalidPath, ls prints it and returns; whole path stripped, "
               "split on / and \\, trailing empty token dropped (N8); tokeniser loop terminates (T1). Every child of a volume is an element: an entry that cannot be realised contributes nothing (I1)."
@@ -151,7 +152,7 @@ PROPS = {
               "no subclass bypasses read (S5); parse-time probes restore positions (S8); shared partition / data-area windows have the recorded offset/size terms (L1a, L1r); the construct objects shared by all "
               "volumes keep no allocation table or stream from an earlier parse (I6)." + NOT +
               "the schedule enumeration; reads performed inside construct on the raw handle."),
-    "C12": _p(["P4", "P5", "P6", "R1"],
+    "C12": _p(["P4", "P5", "P6", "R1", "S6"],
               "Decides: zip / parallel indexing only combines lists of one index domain (per stream vs per channel), interprocedurally for the swap flags (P4); byte-order predicates vs "
               "system_byte_order and destination (P4); every stream reads n*frame_size bytes with one common n, blocks trimmed to whole frames of that stream, pass-through uses "
               "buffer_sizes[0], stop conditions, channel-count check (P5); interleave / de-interleave idioms, end-padding, dtype table (P6); every source stream is "
@@ -164,7 +165,7 @@ PROPS = {
               "exponential-backtracking construct - nested unbounded repeats or overlapping alternatives under a repeat (T5); a failed block read ends the data iterator with "
               "StopIteration (S9: an empty block instead would be re-requested forever)." + NOT + "complexity constants; loops inside construct/numpy; peak memory.",
               ["sector_length/buffer_length attributes are positive (constructor sites pass positive constants)", "the element parent relation is a tree"]),
-    "C14": _p(["I1", "I5", "I4", "L1t", "L4", "L2", "S1", "S2", "L9", "L8r", "I9", "I11", "N12"],
+    "C14": _p(["I1", "I5", "I4", "L1t", "L4", "L2", "S1", "S2", "L9", "L8r", "I9", "I11", "N12", "O1"],
               "Decides: in the AKAI file-table loop the handler re-seeks to entry start + entry size and continues; in lazy file realisation the error path appends nothing and continues; "
               "the four Roland sample references and tolerant lists skip a failing element; Roland records are addressed absolutely (Computed/Pointer/Lazy only) so element i cannot shift "
               "element j (I1, L4); 24-byte file entries / record layouts (L1t, L2); out-of-range start sectors raise the exception the loop swallows (S1, S2); the file table is scanned to the "
@@ -172,7 +173,7 @@ PROPS = {
               "of its own - stream factories are not memoised (I9). A failure while realising a Roland sample is of a type the record loops swallow (I11); a present-but-empty context value is returned as it is (N12)."
               "" + NOT +
               "damage that still parses (a start sector pointing into another file's chain); equality of the other items' audio."),
-    "C15": _p(["S4p", "S9", "T1", "L1w", "I1", "I10", "I13", "I5", "I4", "P5", "S6", "L8c"],
+    "C15": _p(["S4p", "S9", "T1", "L1w", "I1", "I10", "I13", "I5", "I4", "P5", "S6", "L8c", "D4"],
               "Decides: a short sector read is detected on every returning path of SectorStream._read (S4e) and ends the data stream instead of aborting (S9); partition scan leaves its "
               "loop on the first unparsable header (T1-STREAM-PARSE exits); length prefixes wrap the streamed data (L1w); unreadable files are skipped without stopping the remaining ones "
               "(I1); whole-frame blocks (P5); the last CDDA track runs to the end of the file as it is (L8c). The AKAI file table and the volume body are read through the sector stream inside the handlers that turn a failed read into a skipped entry (I10)."
@@ -203,7 +204,7 @@ PROPS = {
               "from and saved back to the history arrays after the sample loop (F5); presets in common.py only bind constants and inherit the streaming methods (F6)." + NOT +
               "equality of outputs over splits; output length; numerical behaviour.",
               ["the shipped .so files correspond to the .pyx sources (Cython is absent; they cannot be rebuilt here)"]),
-    "C20": _p(["L1i", "L1ri", "L2", "L6", "T4", "L8c", "X1", "S4p"],
+    "C20": _p(["L1i", "L1ri", "L2", "L6", "T4", "L8c", "X1", "S4p", "B3", "B1d"],
               "Decides where each displayed value is read from and which key it lands in: evaluated layouts of AKAI sample header / loop table / program header / keygroup (symbolic in the "
               "zone count) / velocity zone and Roland sample parameter record incl. mapping tables, enum tables and Computed/If/Seek expressions vs the reviewed reference (L1i, L1ri, L2); "
               "dataclass <- struct field flow, positional constructor mapping, 0 -> 44100 default, active-loop selection over all 8 entries, itemize exclusions (L6); keygroup chain bounded "
